@@ -342,6 +342,10 @@ fn check_batch(cases: &[Case], rep: &mut Report) {
         let items = attrs.from_items();
         rep.count("alphabets_compared", 1);
         rep.count(&format!("alphabets_compared[{}]", c.kind.asn()), 1);
+        let non_ascii_bound = c.expr.terms.iter().flatten().flat_map(|(a, e)| std::iter::once(a).chain(e.iter())).any(|a| matches!(a, Atom::Range(x, y) if !x.is_ascii() || !y.is_ascii()));
+        if non_ascii_bound && c.kind.known_multiplier() && c.size == 0 && c.serial.is_none() {
+            rep.count("alphabets_compared[plain FROM, range-with-non-ASCII-bound]", 1);
+        }
         rep.nontrivial.insert(hash_str(&c.key()));
         let mut found: Vec<(String, String)> = vec![];
         if !c.kind.known_multiplier() {
@@ -406,7 +410,10 @@ fn check_batch(cases: &[Case], rep: &mut Report) {
                 // one defect: a source range is emitted as a code-point range although the type's alphabet has gaps inside it
                 format!("c15|{kind}|range-over-alphabet-gap|{}", c.kind.asn())
             } else {
-                format!("c15|{kind}|{}|{ctx}", c.class())
+                // a top-level union inside FROM combined with an extensible SIZE loses the annotation whether or not an
+                // operand carries an EXCEPT: same root cause as the listed union case
+                let class = if kind == "annotation-missing" && c.size >= 5 && c.serial.is_none() && c.expr.terms.len() >= 2 { "union-folded-with-SIZE".to_string() } else { c.class() };
+                format!("c15|{kind}|{class}|{ctx}")
             };
             rep.violations.push(Violation { sig, what: format!("{}: {detail}", c.key()), replay: json!({"case": c.key()}) });
         }
@@ -449,7 +456,7 @@ pub fn run(ctx: &Ctx) -> Report {
         "exploration",
         "FROM expressions as unions of intersections of (atom [EXCEPT atom]), atoms = strings of 1..4 characters and ranges over a per-type probe alphabet (table boundaries and order-sensitive characters), on NumericString, PrintableString, VisibleString, IA5String, BMPString, UniversalString and on UTF8String, GeneralString, GraphicString, TeletexString (no annotation expected), alone and combined with SIZE in four ways ((SIZE)(FROM), (FROM)(SIZE), SIZE ^ FROM, FROM ^ SIZE), optionally followed by a second serial FROM, as type assignment and as component. EXHAUSTIVE for 1 and 2 atoms per known-multiplier type (plain FROM, assignment), seeded random for 3 atoms and the other combinations. Oracle: the set denoted by from(..) (single characters, `a..=b` code-point ranges) equals the exact set of the expression within the base alphabet (BMP/Universal: within a finite universe), and every code point covered lies in the base alphabet. Non-trivial = alphabet compared; distinct by case text.",
     );
-    rep.must_observe = vec!["alphabets_compared".into(), "alphabets_compared[PrintableString]".into(), "alphabets_compared[UTF8String]".into()];
+    rep.must_observe = vec!["alphabets_compared".into(), "alphabets_compared[plain FROM, range-with-non-ASCII-bound]".into(), "alphabets_compared[PrintableString]".into(), "alphabets_compared[UTF8String]".into()];
     rep.assumptions = vec!["ranges in the source are read in ascending code-point order (X.680 41 / X.691 30.5)".into(), "from(\"a..=b\") denotes every scalar between a and b (rasn derive semantics)".into()];
     if ctx.replay.is_some() {
         rep.inconclusive.push("replay: re-run the check (cases are regenerated from the seed)".into());
